@@ -378,6 +378,7 @@ def run(ctx):
     from . import c04 as _c04
     ctx.rule('C06.STATEALIAS', lambda: _c04.rule_statealias(ctx, 'C06'), 2)
     ctx.rule('C06.FSMETA', lambda: _c04.rule_file_offsets(ctx, 'C06'), 5)
+    ctx.rule('C06.STATEMOVE', lambda: _c04.rule_state_moves_with_commit(ctx, 'C06'), 2)
     # each backup job leaves the durable state consistent at one height: the history truncation belongs to
     # the same job as the UTXO commit (a stop between jobs is a legal cancellation instant)
     from ..effects import InlineGraph
